@@ -15,7 +15,7 @@ use routecore::bgp::message::{SessionConfig, UpdateMessage};
 use routecore::bgp::nlri::afisafi::IsPrefix;
 use std::net::IpAddr;
 
-fn unhex(s: &str) -> Option<Vec<u8>> {
+pub(crate) fn unhex(s: &str) -> Option<Vec<u8>> {
     if s.len() % 2 != 0 {
         return None;
     }
@@ -43,7 +43,7 @@ fn show_prefix(p: inetnum::addr::Prefix) -> String {
     format!("{hex}/{len}{}", if dirty { "!hostbits" } else { "" })
 }
 
-fn show_route(kind: char, r: &RotondaRoute) -> String {
+pub(crate) fn show_route(kind: char, r: &RotondaRoute) -> String {
     let (fam, pfx) = match r {
         RotondaRoute::Ipv4Unicast(n, _) => ("4u", n.prefix()),
         RotondaRoute::Ipv4Multicast(n, _) => ("4m", n.prefix()),
@@ -54,15 +54,19 @@ fn show_route(kind: char, r: &RotondaRoute) -> String {
     format!("{kind}{fam}:{}:n{}h{:08x}", show_prefix(pfx), raw.len(), fnv(&raw))
 }
 
+/// framing is the transport's business (BGP / BMP / MRT record length): the
+/// explode path is only ever handed exactly one message
+pub(crate) fn framed(bytes: &[u8]) -> bool {
+    bytes.len() >= 19 && u16::from_be_bytes([bytes[16], bytes[17]]) as usize == bytes.len()
+}
+
 fn run_pdu(cfg: &str, hex: &str) -> Vec<String> {
     let err = vec!["ERR".to_string()];
     let bytes = match unhex(hex) {
         Some(b) => b,
         None => panic!("bad hex"),
     };
-    // framing is the transport's business (BGP / BMP / MRT record length): the
-    // explode path is only ever handed exactly one message
-    if bytes.len() < 19 || u16::from_be_bytes([bytes[16], bytes[17]]) as usize != bytes.len() {
+    if !framed(&bytes) {
         return err;
     }
     let sc = if cfg.ends_with('l') { SessionConfig::legacy() } else { SessionConfig::modern() };
@@ -85,10 +89,14 @@ fn run_pdu(cfg: &str, hex: &str) -> Vec<String> {
 }
 
 pub fn run_case(line: &str) -> String {
+    run_with(line, run_pdu)
+}
+
+pub(crate) fn run_with(line: &str, f: fn(&str, &str) -> Vec<String>) -> String {
     let mut out: Vec<String> = vec![];
     for op in crate::util::ops(line) {
         assert!(op.len() >= 2, "pdu: <cfg> <hex> [tag] expected");
-        let toks = run_pdu(op[0], op[1]);
+        let toks = f(op[0], op[1]);
         out.push("|".into());
         if op[0].starts_with('w') {
             out.push(toks.join(","));
